@@ -161,7 +161,9 @@ func runC18(seed int64, tier string, sc *Script) map[string]any {
 		cases = 2500
 	}
 	evals := 0
-	parts := []string{"", "u", "user", "p:a:s:s", ":", "päß wörd", "x y", "tok.en/+=", "a:b"}
+	// (the last four make the standard base64 of "user:password" use '+' and '/', which the
+	// URL-safe alphabet does not have)
+	parts := []string{"", "u", "user", "p:a:s:s", ":", "päß wörd", "x y", "tok.en/+=", "a:b", "~~~?>>>", "ÿ", "¿qué?", ">>>???~~~"}
 	hosts := []string{"r.io", "reg.example.com:5000", "localhost", "other.io", "legacy.io", "h2"}
 	for ci := 0; ci < cases; ci++ {
 		sc.Case("cred-history")
@@ -251,6 +253,9 @@ func runC18(seed int64, tier string, sc *Script) map[string]any {
 			switch r := rng.Intn(10); {
 			case r < 5:
 				c := auth.Credential{Username: parts[rng.Intn(len(parts))], Password: parts[rng.Intn(len(parts))]}
+				if strings.ContainsAny(base64.StdEncoding.EncodeToString([]byte(c.Username+":"+c.Password)), "+/") {
+					sc.Count("put:base64-uses-plus-or-slash")
+				}
 				if rng.Intn(3) == 0 {
 					c.RefreshToken = "refresh-" + parts[rng.Intn(len(parts))]
 				}
